@@ -112,34 +112,42 @@ class StubAttenuator(BeamAttenuator):
         return v
 
 
+SERIAL = [0]
+
+
+def next_serial():
+    SERIAL[0] += 1
+    return SERIAL[0]
+
+
 class StubCX(BeamCXPEC):
     def __init__(self, m, c, log):
         super().__init__(m)
-        self.c, self.log = c, log
+        self.c, self.log, self.serial = c, log, next_serial()
 
     def evaluate(self, energy, temperature, density, z_effective, b_field):
         v = aff5(self.c, energy, temperature, density, z_effective, b_field)
-        self.log.append(("cx", self.donor_metastable, (energy, temperature, density, z_effective, b_field), v))
+        self.log.append(("cx", self.donor_metastable, (energy, temperature, density, z_effective, b_field), v, self.serial))
         return v
 
 
 class StubPop(BeamPopulationRate):
     def __init__(self, tag, c, log):
-        self.tag, self.c, self.log = tag, c, log
+        self.tag, self.c, self.log, self.serial = tag, c, log, next_serial()
 
     def evaluate(self, energy, density, temperature):
         v = aff3(self.c, energy, density, temperature)
-        self.log.append(("pop", self.tag, (energy, density, temperature), v))
+        self.log.append(("pop", self.tag, (energy, density, temperature), v, self.serial))
         return v
 
 
 class StubPEC(BeamEmissionPEC):
     def __init__(self, tag, c, log):
-        self.tag, self.c, self.log = tag, c, log
+        self.tag, self.c, self.log, self.serial = tag, c, log, next_serial()
 
     def evaluate(self, energy, density, temperature):
         v = aff3(self.c, energy, density, temperature)
-        self.log.append(("pec", self.tag, (energy, density, temperature), v))
+        self.log.append(("pec", self.tag, (energy, density, temperature), v, self.serial))
         return v
 
 
@@ -401,6 +409,7 @@ class HistData(AtomicData):
         return StubPop((metastable, (el, charge)), pop_coeffs(self.prov["seed"], metastable, el, charge), self.log)
 
     def beam_emission_pec(self, beam_ion, plasma_ion, charge, transition):
+        self.log.append(("request_pec", beam_ion.name, plasma_ion.name, charge, tuple(transition)))
         if charge == 0:
             return NullBeamEmissionPEC()
         el = ELEMENTS.index(plasma_ion)
@@ -468,7 +477,8 @@ def composition_view(plasma):
     items = list(comp)
     keys = [[ELEMENTS.index(sp.element), int(sp.charge)] for sp in items]
     same = all(comp.get(sp.element, sp.charge) is sp and comp[(sp.element, sp.charge)] is sp for sp in items)
-    return {"keys": keys, "len": len(comp), "lookup_returns_member": bool(same)}
+    dens0 = [float(sp.distribution.density(0.0, 0.0, 0.0)) for sp in items]
+    return {"keys": keys, "len": len(comp), "lookup_returns_member": bool(same), "density_at_origin": dens0}
 
 
 class Scene:
@@ -628,10 +638,10 @@ class Scene:
         for l in log:
             if l[0] == "pop":
                 i = keys.index(l[1][1]) if l[1][1] in keys else -1
-                conv.append(("pop", (l[1][0], i), l[2], l[3]))
+                conv.append(("pop", (l[1][0], i), l[2], l[3], l[4]))
             elif l[0] == "pec":
                 i = keys.index(l[1]) if l[1] in keys else -1
-                conv.append(("pec", i, l[2], l[3]))
+                conv.append(("pec", i, l[2], l[3], l[4]))
             else:
                 conv.append(l)
                 continue
@@ -643,13 +653,98 @@ class Scene:
         return case, out
 
 
-def run_history(hist):
+def composition_ops(step, cfg_before):
+    """the composition mutations of one history step in the vocabulary of Model/C05_History.v:
+    ("add", s) | ("set", [s, ...]) | ("clear",)"""
+    op = step["op"]
+    if op in ("add_new", "add_existing"):
+        return [("add", step["species"])]
+    if op in ("assign", "set", "beam_plasma"):
+        return [("set", step.get("species_raw") or step["species"])]
+    if op == "clear_readd":
+        return [("clear",)] + [("add", s) for s in (step.get("species_raw") or step["species"])]
+    if op == "reassign_same" and step["what"] == "composition":
+        return [("set", cfg_before["species"])]
+    if op == "reassign_same" and step["what"] == "add_same":
+        return [("add", s) for s in cfg_before["species"]]
+    return []
+
+
+# ---- behavioural probe: which public mutator clears the caches of live models (coq/Gen/C05/Tie.v) ------------
+PROBE_KINDS = {0: "composition.add of a new key", 1: "composition.add of an existing key",
+               2: "plasma.composition = [...] and composition.set([...])", 3: "composition.clear()",
+               4: "model.line = Line(...)", 5: "beam.atomic_data / model.atomic_data = other provider",
+               6: "plasma.b_field = ...", 7: "beam.energy / beam.length / beam.attenuator = ..."}
+
+
+def probe_notifications():
+    """For every mutation kind of Model/C05_History.v and both ways of attaching the models: evaluate both live
+    models (caches populated), perform the mutation, evaluate again, and record whether the second evaluation used
+    only rate objects created after the mutation (then the cache was cleared) -- {kind: (cx_cleared, bes_cleared)}."""
+    sp = lambda el, ch, n: {"el": el, "charge": ch, "n0": n, "t0": 100.0, "v0": [0.0, 0.0, 0.0]}
+    prov = lambda seed: {"seed": seed, "rates": [{"m": 2, "c": [SCALE_CX] * 6}, {"m": 1, "c": [2 * SCALE_CX] * 6}]}
+    ev = {"plasma_point": [0.5, 0.5, 0.5], "beam_point": [0.0, 0.0, 0.5], "dir": [0.0, 0.0, 1.0]}
+    result = {}
+    detail = {}
+    for kind in sorted(PROBE_KINDS):
+        routes = {0: ["add"], 1: ["add"], 2: ["assign", "set"], 3: ["clear"], 4: ["line"], 5: ["provider"], 6: ["b_field"],
+                  7: ["energy", "length", "attenuator"]}[kind]
+        cleared = [True, True]
+        for attach in ("models", "constructor"):
+            for route in routes:
+                cfg = {"species": [sp(1, 1, 4e19), sp(7, 6, 5e17)], "b0": [0.0, 1.0, 2.0], "attach": attach,
+                       "beam": {"energy": 5e4, "length": 1.0, "att0": 1e15, "element": 1},
+                       "line": {"el": 7, "charge": 5, "transition": [8, 7]}, "prov": prov(1)}
+                sc = Scene(cfg)
+                for k in ("cx", "bes"):
+                    sc.evaluate(dict(ev, kind=k))
+                mark = SERIAL[0]
+                if route == "add":
+                    step = {"op": "add_new" if kind == 0 else "add_existing", "species": sp(3, 2, 1e18) if kind == 0 else sp(7, 6, 2e17)}
+                elif route in ("assign", "set"):
+                    step = {"op": route, "species": [sp(7, 6, 3e17), sp(1, 1, 2e19)]}
+                elif route == "clear":
+                    sc.plasma.composition.clear()
+                    sc.cfg["species"] = []
+                    step = {"op": "none"}
+                elif route == "line":
+                    step = {"op": "cx_line", "line": {"el": 1, "charge": 0, "transition": [3, 2]}}
+                elif route == "provider":
+                    step = {"op": "atomic_data", "prov": prov(2)}
+                elif route == "b_field":
+                    step = {"op": "b_field", "b0": [1.0, 0.0, 0.0]}
+                elif route == "energy":
+                    step = {"op": "beam_energy", "energy": 6e4}
+                elif route == "length":
+                    step = {"op": "beam_length", "length": 2.0}
+                else:
+                    step = {"op": "attenuator", "att0": 2e15}
+                sc.apply(step)
+                if route == "line":
+                    sc.bes.line = Line(ELEMENTS[1], 0, (3, 2))      # the line setter of the other model
+                for j, k in enumerate(("cx", "bes")):
+                    _, out = sc.evaluate(dict(ev, kind=k))
+                    stale = [l for l in out["log"] if l[0] in ("cx", "pop", "pec") and l[4] <= mark]
+                    if stale:
+                        cleared[j] = False
+                    detail[(kind, attach, route, k)] = {"code": out["code"], "stale_rate_objects": len(stale)}
+        result[kind] = tuple(cleared)
+    return result, detail
+
+
+def run_history(hist, views=None):
     """hist = {"cfg": initial configuration, "steps": [{"op": ..., ..., "evals": [ev, ...]}]};
-    returns [(case, out, step index)] for every evaluation"""
+    returns [(case, out, step index)] for every evaluation.  `views` (a list) receives, per step, the composition
+    mutations performed and what the container reports afterwards."""
     scene = Scene(hist["cfg"])
     res = []
+    if views is not None:
+        views.append(([("set", hist["cfg"].get("species_raw") or hist["cfg"]["species"])], composition_view(scene.plasma)))
     for k, step in enumerate(hist["steps"]):
+        before = copy.deepcopy(scene.cfg)
         scene.apply(step)
+        if views is not None:
+            views.append((composition_ops(step, before), composition_view(scene.plasma)))
         for ev in step["evals"]:
             case, out = scene.evaluate(ev)
             res.append((case, out, k))
